@@ -356,6 +356,67 @@ theorem C14_default_headers_agree (isSpace : Char → Bool) (outer : Bool)
     obtain ⟨tr, _, l, _, rfl⟩ := mem_records hr
     exact asRead_perm_mkRec _ true (consts_reader_default_perm true) d tr l
 
+/-- the fields of the four base columns do not depend on whether the record carries boxes -/
+private theorem fieldOf_mkRec_base (d tr : Region) (l : Line) (h : Str) (hh : h ∈ baseHeaders) :
+    fieldOf (mkRec true d tr l) h = fieldOf (mkRec false d tr l) h := by
+  simp only [baseHeaders, List.mem_cons, List.not_mem_nil, or_false] at hh
+  rcases hh with rfl | rfl | rfl | rfl <;>
+    simp [fieldOf, mkRec, lookupKey, sDocId, sRegionId, sLineId, sText]
+
+private theorem zip_map_append_self {α β} (l : List α) (f : α → β) (m : List β) :
+    l.zip (l.map f ++ m) = l.map (fun a => (a, f a)) := by
+  induction l with
+  | nil => simp
+  | cons a as ih => simp [ih]
+
+/-- **A line file with the box columns, read without them**, yields the records of the in-memory
+    route without boxes: files written with the writer's default columns (`headers=None`, bounding
+    boxes on), their header line dropped, and read either with no header information and
+    `add_bounding_box=False` or with the reader's four default columns supplied explicitly (whatever
+    `has_headers` says) yield, for every line, the record `get_line_format_json(…, add_bounding_box=False)`
+    yields for it (None ↦ ''), in the reader's column order — the surplus columns of each row are
+    ignored, the text column is not extended by them.
+    Needs of the tables: `C14_consts_writer_default_extends_reader_default` (the writer's default
+    columns start with the reader's default columns), `C14_consts_reader_default_perm`. -/
+theorem C14_read_without_box_columns (isSpace : Char → Bool) (outer hasHeaders : Bool)
+    (split : List (List Region)) (hclean : ∀ d ∈ split.flatten, CleanDoc outer d) :
+    let files := split.map (fun c => encodeTsv none (rowsOfDocs allHeaders outer true c))
+    let want := (split.flatten.flatMap (records outer false)).map (asRead (defaultHeaders false))
+    collect (iterFromLineFile isSpace files false none false) = .ok want ∧
+    collect (iterFromLineFile isSpace files hasHeaders (some (defaultHeaders false)) false) = .ok want := by
+  intro files want
+  obtain ⟨ex, hex⟩ := consts_writer_default_extends_reader_default
+  have hlen : (defaultHeaders false).length ≤ allHeaders.length := by rw [hex]; simp
+  have hrows : ∀ rows ∈ split.map (rowsOfDocs allHeaders outer true), ∀ row ∈ rows,
+      RowOK (defaultHeaders false) row := by
+    intro rows hr row hrow
+    obtain ⟨chunk, hc, rfl⟩ := List.mem_map.mp hr
+    obtain ⟨h1, h2, h3⟩ := rowsOfDocs_ok allHeaders consts_writer_default_sub.1 outer true chunk
+      (fun d hd => hclean d (List.mem_flatten.mpr ⟨chunk, hc, hd⟩)) row hrow
+    exact ⟨h1, le_trans hlen h2, h3⟩
+  have hfiles : files =
+      (split.map (rowsOfDocs allHeaders outer true)).map (fun rows => encodeTsv none rows) := by
+    simp [files, List.map_map, Function.comp_def]
+  have hbase : ∀ h ∈ defaultHeaders false, h ∈ baseHeaders := by
+    intro h hh
+    have := (consts_reader_default_perm false).subset hh
+    simpa [recKeys] using this
+  have hdec : (split.map (rowsOfDocs allHeaders outer true)).flatten.map
+      (fun row => (defaultHeaders false).zip row) = want := by
+    rw [rowsOfDocs_flatten]
+    simp only [rowsOfDocs, want, records, List.map_map, List.map_flatMap]
+    refine flatMap_congr' _ _ _ (fun d _ => flatMap_congr' _ _ _ (fun tr _ => ?_))
+    refine List.map_congr_left (fun l _ => ?_)
+    simp only [Function.comp, asRead, hex, List.map_append, zip_map_append_self]
+    exact List.map_congr_left (fun h hh => by rw [fieldOf_mkRec_base d tr l h (hbase h hh)])
+  refine ⟨?_, ?_⟩
+  · rw [hfiles, iter_default isSpace _ false hrows, collect_ok, hdec]
+  · rw [hfiles, iter_supplied isSpace _ _ hrows hasHeaders false, collect_ok, hdec]
+
+/-- the writer's default columns start with the reader's default columns without boxes -/
+theorem C14_consts_writer_default_extends_reader_default :
+    ∃ ex, allHeaders = defaultHeaders false ++ ex := consts_writer_default_extends_reader_default
+
 /-! ### rebuilding documents -/
 
 /-- **Documents rebuilt from the line files are the documents written**: for every list of
